@@ -150,16 +150,17 @@ impl<'a> AsciiDecLit<'a> {
 
     /// Convert the leading sequence of decimal digits in `self` (if any) into
     /// an int and accumulate it into `coeff`.
-    // The function uses wrapping_mul and wrapping_add, so overflow can
-    // happen; it must be checked later!
+    // On overflow `coeff` sticks at u128::MAX, which is reported as internal
+    // overflow later.
     fn accum_coeff(&mut self, coeff: &mut u128) -> usize {
         let start_len = self.len();
         // First, try chunks of 8 digits
         while let Some(k) = self.read_u64() {
             if chunk_contains_8_digits(k) {
                 *coeff = coeff
-                    .wrapping_mul(100000000)
-                    .wrapping_add(chunk_to_u64(k) as u128);
+                    .checked_mul(100000000)
+                    .and_then(|c| c.checked_add(chunk_to_u64(k) as u128))
+                    .unwrap_or(u128::MAX);
                 // Safety: safe because of call to self.read_u64 above
                 unsafe {
                     self.skip_n(8);
@@ -172,7 +173,10 @@ impl<'a> AsciiDecLit<'a> {
         while let Some(c) = self.first() {
             let d = c.wrapping_sub(b'0');
             if d < 10 {
-                *coeff = coeff.wrapping_mul(10).wrapping_add(d as u128);
+                *coeff = coeff
+                    .checked_mul(10)
+                    .and_then(|c| c.checked_add(d as u128))
+                    .unwrap_or(u128::MAX);
                 // Safety: safe because of call to self.first above
                 unsafe {
                     self.skip_1();
